@@ -212,11 +212,22 @@ def build_unit(unit, quiet=True):
                 txt = head + '/* body replaced by the trusted stub of specs/%s.py */\n{\n%s\n}\n' % (unit, subst(stubbed[cn]['stub'], fmeta[cn]).strip('\n'))
             parts.append(txt)
         defs = '\n\n'.join(parts) + '\n'
+    pending_prologue = None
     for ln in defs.split('\n'):
+        if pending_prologue is not None and ln.strip() == '{':
+            lines.append(ln)
+            lines.append('  /* ghost prologue (spec): ' + pending_prologue.replace('\n', ' ') + ' */')
+            for pl in pending_prologue.strip().split('\n'):
+                lines.append('  ' + pl.strip())
+            pending_prologue = None
+            continue
         m = re.match(r'^\s*/\*@CONTRACT (\S+)@\*/\s*$', ln)
         if m:
             fn = m.group(1)
             e = entries.get(fn)
+            if e is not None and e.get('prologue') and not e.get('stub'):
+                # ghost-only statements executed at function entry (reset of per-call ghost counters)
+                pending_prologue = subst(e['prologue'], fmeta[fn])
             if e is not None and not e.get('inline') and not e.get('harness') and not e.get('stub'):
                 fm = fmeta[fn]
                 for kind in ('requires', 'ensures'):
@@ -251,6 +262,15 @@ def build_unit(unit, quiet=True):
                 if lp.get('decreases'):
                     lines.append('__CPROVER_decreases(%s)' % subst(lp['decreases'], fm))
                     linemap[len(lines)] = {'fn': fn, 'kind': 'decreases', 'loop': k, 'tags': [], 'expr': lp['decreases'], 'text': ''}
+            continue
+        m = re.match(r'^\s*/\*@AFTERLOOP (\S+)\.(\d+)@\*/\s*$', ln)
+        if m:
+            fn, k = m.group(1), int(m.group(2))
+            lp = (entries.get(fn) or {}).get('loops', {}).get(k)
+            if lp is not None and not lp.get('exit_unreachable'):
+                # vacuity guard for the loop contract: an invariant that contradicts the state at loop
+                # entry makes everything behind the loop unreachable (and every obligation there "pass")
+                lines.append('__CPROVER_assert(0, "vf_reach_loop %s.%d: the code behind this loop is reachable (vacuity guard for the loop invariant)");' % (fn, k))
             continue
         lines.append(ln)
         m = re.match(r'^\s*/\* (gmlc/\S+):(\d+) \*/\s*$', ln)
